@@ -6,12 +6,13 @@ Exit 1 while it reproduces."""
 import os
 import sys
 import tempfile
+from datetime import datetime
 import numpy as np
 from dliswriter import DLISFile
 
 
 def build():
-    df = DLISFile(); lf = df.add_logical_file(); lf.add_origin('O', file_set_number=1)
+    df = DLISFile(); lf = df.add_logical_file(); lf.add_origin('O', file_set_number=1, creation_time=datetime(2020, 1, 2, 3, 4, 5))
     d1 = lf.add_channel('D1'); x = lf.add_channel('X')
     lf.add_frame('F1', channels=(d1,), index_type='BOREHOLE-DEPTH')
     lf.add_frame('F2', channels=(x,))
